@@ -371,3 +371,13 @@ pub fn unsupported_field(f: &FormatField) -> Option<&'static str> {
         _ => return None,
     })
 }
+
+/// Un-merged outputs (one entry per action execution) - the "whole records" of C16.
+pub fn reference_raw(e: &Expression, rec: &FileRecord, now: i128) -> Result<Vec<(Dest, String)>, Undefined> {
+    let mut c = Ctx { rec, now, outs: vec![], stop: false };
+    let truth = eval_expr(e, &mut c)?;
+    if !has_action(e) && truth {
+        c.outs.push((Dest::Stdout, format!("{}\n", rec.relpath)));
+    }
+    Ok(c.outs)
+}
